@@ -184,6 +184,61 @@ def option_value(E, t, key, default):
     return r
 
 
+# ------------------------------------------------------------------------------------------------ model objects
+BYC_NEW = z3.Function('bycycle_object_of', *([ValSort] * 5 + [z3.BoolSort(), ValSort]))      # the six constructor settings
+BYC_LOADED = z3.Function('bycycle_loaded', ValSort, ValSort, ValSort, z3.RealSort(), z3.RealSort(), z3.RealSort(), ValSort)
+EXPANDED = z3.Function('thresholds_expanded', ValSort, ValSort)
+
+
+@libfn('bycycle.objs.fit.Bycycle')
+def byc_construct(E, args, node):
+    """group-level view of Bycycle(...): an opaque model object determined by its six settings.  The constructor expands
+    threshold shorthands IN PLACE in the dictionary it is given (verified under C14); on an already expanded dictionary
+    that is the identity: thresholds_expanded is idempotent (assumed dictionary fact)."""
+    names = ['center_extrema', 'burst_method', 'burst_kwargs', 'thresholds', 'find_extrema_kwargs', 'return_samples']
+    vals = []
+    for k, nm in enumerate(names):
+        v = args.pos[k] if k < len(args.pos) else args.kw.get(nm)
+        vals.append(v)
+    if not all(isinstance(v, Opaque) or v is None for v in vals[:5]):
+        raise Unsupported('Bycycle(...) with non-opaque settings')
+    ts = [NONE_OPTS if v is None else v.t for v in vals[:5]]
+    th = vals[3]
+    if th is not None:
+        cell = getattr(th, 'cell', None)
+        if cell is None:
+            raise Unsupported('thresholds without identity')
+        E.mutate(cell['ident'], node, 'Bycycle.__init__ expands the threshold names in the dictionary it is given')
+        o = z3.Const('exp_o', ValSort)
+        done = E.st.ghost.setdefault('expanded_axiom', [])
+        if not done:
+            E.assumptions_quant(z3.ForAll([o], EXPANDED(EXPANDED(o)) == EXPANDED(o), patterns=[EXPANDED(EXPANDED(o))]))
+            done.append(True)
+        cell['t'] = EXPANDED(cell['t'])
+        th.t = cell['t']
+        ts[3] = th.t
+    rs = vals[5]
+    rs_t = zbool(rs) if not isinstance(rs, bool) else z3.BoolVal(rs)
+    obj = Opaque(BYC_NEW(*(ts + [rs_t])), 'Bycycle object')
+    obj.cell = {'ident': E.new_ident(True), 't': obj.t}
+    obj.is_model = True
+    return obj
+
+
+@method('Opaque.load')
+def byc_load(E, v, args, node):
+    """Bycycle.load(df_features, sig, fs, f_range): stores the four values in the object"""
+    if not getattr(v, 'is_model', False):
+        raise Unsupported('load on %r' % (v,))
+    df, sig, fs, fr = args.get(0, 'df_features'), args.get(1, 'sig'), args.get(2, 'fs'), args.get(3, 'f_range')
+    if not (isinstance(df, Opaque) and isinstance(sig, Opaque)):
+        raise Unsupported('load with non-opaque table / signal')
+    E.mutate(v.cell['ident'], node, 'Bycycle.load')
+    v.t = BYC_LOADED(v.t, df.t, sig.t, to_real(lift(fs)), to_real(lift(fr[0])), to_real(lift(fr[1])))
+    v.cell['t'] = v.t
+    return None
+
+
 @method('Opaque.get')
 def opaque_get(E, v, args, node):
     key = args.pos[0]
